@@ -18,6 +18,7 @@ import (
 	"fmt"
 	"math/rand"
 	"net"
+	"os"
 	"sort"
 	"strings"
 	"sync"
@@ -56,19 +57,22 @@ type View struct {
 }
 
 type Universe struct {
-	Clients map[string]Client  `json:"clients"`
-	Nets    map[string]string  `json:"nets"`    // id -> CIDR
-	Data    map[string]string  `json:"data"`    // data id -> rdata (presentation)
-	Down    map[string]string  `json:"down"`    // type -> rdata the scripted downstream answers with
-	Configs map[string][]View  `json:"configs"` // config id -> views in declaration order
-	Acl     map[string][]string `json:"acl"`    // config id -> net ids the access list allows (none = the open default)
-	Empty   []string           `json:"empty"`   // the AS112 empty zones the universe's names touch (all in the default list)
-	TTL     uint32             `json:"ttl"`
-	Names   []string           `json:"names"`
-	Types   []string           `json:"types"`
-	member  map[string]bool    // client|net (reference, net.IPNet)
-	dataID  map[string]string  // type|rdata -> id
-	viewOf  map[string]map[string]int // cfg -> data id -> view index (1-based)
+	Clients    map[string]Client         `json:"clients"`
+	Nets       map[string]string         `json:"nets"`       // id -> CIDR
+	Data       map[string]string         `json:"data"`       // data id -> rdata (presentation)
+	Down       map[string]string         `json:"down"`       // type -> rdata the scripted downstream answers with
+	Configs    map[string][]View         `json:"configs"`    // config id -> views in declaration order
+	Acl        map[string][]string       `json:"acl"`        // config id -> net ids the access list allows (none = the open default)
+	Empty      []string                  `json:"empty"`      // the AS112 empty zones the universe's names touch (all in the default list)
+	ChaosNames []string                  `json:"chaosNames"` // asked in class CH
+	ChaosKnown []string                  `json:"chaosKnown"` // the ones the documentation says the responder knows
+	ChaosOn    map[string]bool           `json:"chaosOn"`    // config id -> chaos = true
+	TTL        uint32                    `json:"ttl"`
+	Names      []string                  `json:"names"`
+	Types      []string                  `json:"types"`
+	member     map[string]bool           // client|net (reference, net.IPNet)
+	dataID     map[string]string         // type|rdata -> id
+	viewOf     map[string]map[string]int // cfg -> data id -> view index (1-based)
 }
 
 type Step struct {
@@ -301,6 +305,7 @@ func newFront(u *Universe, cfgID string) *front {
 	for _, n := range u.Acl[cfgID] {
 		cfg.AccessList = append(cfg.AccessList, u.Nets[n])
 	}
+	cfg.Chaos = u.ChaosOn[cfgID]
 	t := &tailH{u: u}
 	middleware.Reset()
 	defaults.RegisterUpTo("failover")
@@ -351,10 +356,28 @@ type outcome struct {
 	tail  int    // how often the scripted downstream was reached
 }
 
-func (u *Universe) classify(reply *dns.Msg, tailCalls int) outcome {
+func has(list []string, name string) bool {
+	for _, x := range list {
+		if strings.EqualFold(x, name) {
+			return true
+		}
+	}
+	return false
+}
+
+func (u *Universe) classify(q qspec, reply *dns.Msg, tailCalls int) outcome {
 	o := outcome{reply: reply, tail: tailCalls}
 	if reply == nil {
 		o.kind = "lost"
+		return o
+	}
+	if q.class == dns.ClassCHAOS {
+		o.kind = "chpass"
+		for _, rr := range reply.Answer {
+			if _, ok := rr.(*dns.TXT); ok && rr.Header().Class == dns.ClassCHAOS && tailCalls == 0 {
+				o.kind, o.ids = "chaos", []string{"chaos"}
+			}
+		}
 		return o
 	}
 	down, viewd := 0, 0
@@ -437,7 +460,7 @@ func (f *front) ask(u *Universe, q qspec, entry string) outcome {
 			}
 		}
 	}
-	o := u.classify(reply, f.tail.n()-c0)
+	o := u.classify(q, reply, f.tail.n()-c0)
 	o.entry = took
 	return o
 }
@@ -484,6 +507,17 @@ func (u *Universe) judge(cfg string, st Step, q qspec, o outcome) (string, strin
 			return "acl/internal-dropped", fmt.Sprintf("an internal sub-query got no reply (accesslist %v; \"an internal sub-query isn't denied by a source-IP rule\")", u.Acl[cfg])
 		}
 		return "chain/no-reply", fmt.Sprintf("%s is allowed and got no reply at all", who)
+	}
+	if q.class == dns.ClassCHAOS {
+		known := has(u.ChaosKnown, st.N) && st.T == "TXT"
+		switch {
+		case !u.ChaosOn[cfg] && o.kind == "chaos":
+			return "chaos/disabled-answered", fmt.Sprintf("chaos = false and %s was told %q", who, o.reply.Answer[0].String())
+		case u.ChaosOn[cfg] && known && !st.Int && o.kind != "chaos":
+			return "chaos/silent", fmt.Sprintf("chaos = true and %s got no CHAOS TXT answer for %s (rcode %s, %d answers, downstream called %d time(s))",
+				who, st.N, dns.RcodeToString[o.reply.Rcode], len(o.reply.Answer), o.tail)
+		}
+		return "", ""
 	}
 	if o.reply.Id != q.id || len(o.reply.Question) != 1 || !strings.EqualFold(o.reply.Question[0].Name, q.name) ||
 		o.reply.Question[0].Qtype != q.qtype {
@@ -603,7 +637,9 @@ func stageReplay(in *Input, res *vh.Result) {
 		res.Count("histories", 1)
 		for i, st := range h.Steps {
 			q := qspec{client: st.C, name: st.N, qtype: dns.StringToType[st.T], class: dns.ClassINET, tcp: rng.Intn(4) == 0, id: uint16(1 + rng.Intn(65000))}
-			if rng.Intn(3) == 0 {
+			if has(u.ChaosNames, st.N) {
+				q.class = dns.ClassCHAOS
+			} else if rng.Intn(3) == 0 {
 				q.name = spellCase(rng, q.name)
 				res.Count("case_variants", 1)
 			}
@@ -636,13 +672,18 @@ func stageReplay(in *Input, res *vh.Result) {
 				res.Count("outcome_differs_from_model", 1)
 				res.DriftNote("config %s history %s step %d (%s %s %s int=%v): model %s %v, code %s %v", h.Cfg, h.ID, i+1, st.C, st.N, st.T, st.Int, st.Kind, mids, o.kind, o.ids)
 			}
+			if !st.Int && !u.docAllowed(h.Cfg, st.C) {
+				res.Count("denied_judged", 1)
+			}
 			if o.kind == "view" {
 				if o.reply.Authoritative && o.reply.RecursionAvailable {
 					res.Count("view_reply_aa_ra", 1)
 				} else {
 					res.Count("view_reply_other_flags", 1)
 				}
-				// a view answer leaves no state behind: the other entry must give the same answer
+			}
+			if (o.kind == "view" || o.kind == "empty") && !st.Int {
+				// a local answer leaves no state behind: the other entry must give the same answer
 				other := "wire"
 				if o.entry != "decoded" {
 					other = "decoded"
@@ -653,12 +694,21 @@ func stageReplay(in *Input, res *vh.Result) {
 					res.Violate(class, fmt.Sprintf("[config %s, history %s step %d, entry %s (second entry)] %s | query %s %s", h.Cfg, h.ID, i+1, o2.entry, what, q.name, st.T), rp)
 					return
 				}
+				if o2.reply != nil && o.reply != nil && (o2.kind != o.kind || !eqSet(o2.ids, o.ids) || o2.reply.Rcode != o.reply.Rcode) {
+					class := "views/parity"
+					if o.kind == "empty" || o2.kind == "empty" {
+						class = "as112/parity"
+					}
+					res.Violate(class, fmt.Sprintf("[config %s, history %s step %d] the same question from the same client: entry %s -> %s %v rcode %s, entry %s -> %s %v rcode %s | query %s %s",
+						h.Cfg, h.ID, i+1, o.entry, o.kind, o.ids, dns.RcodeToString[o.reply.Rcode], o2.entry, o2.kind, o2.ids, dns.RcodeToString[o2.reply.Rcode], q.name, st.T), rp)
+					return
+				}
 			}
 		}
 	}
 }
 
-// stageProbes: behaviour the documentation does not cover (counted, never judged).
+// stageProbes: behaviour the documentation does not cover (reported as OBSERVATION lines, never judged).
 func stageProbes(in *Input, res *vh.Result) {
 	u := &in.U
 	cfgID := "AB"
@@ -666,18 +716,40 @@ func stageProbes(in *Input, res *vh.Result) {
 		return
 	}
 	f := newFront(u, cfgID)
-	probe := func(name string, q qspec) {
-		o := f.ask(u, q, "decoded")
-		rc := "-"
-		if o.reply != nil {
-			rc = dns.RcodeToString[o.reply.Rcode]
+	var lines []string
+	probe := func(class, what string, q qspec) {
+		c0 := f.tail.n()
+		sink := &pipe.Sink{Remote: u.addr(q.client, false)}
+		f.srv.ServeMsg(context.Background(), sink, q.msg())
+		got := "no reply"
+		if n := len(sink.Writes); n > 0 {
+			m := new(dns.Msg)
+			if err := m.Unpack(sink.Writes[n-1]); err == nil {
+				var rrs []string
+				for _, rr := range m.Answer {
+					rrs = append(rrs, strings.Join(strings.Fields(rr.String()), " "))
+				}
+				got = fmt.Sprintf("rcode %s aa=%v answer [%s]", dns.RcodeToString[m.Rcode], m.Authoritative, strings.Join(rrs, "; "))
+			}
+		}
+		if f.tail.n() > c0 {
+			got += " (handed to the rest of the chain)"
+		} else {
+			got += " (answered locally)"
 		}
 		res.Count("probes", 1)
-		res.Sample(map[string]any{"probe": name, "outcome": o.kind, "ids": o.ids, "rcode": rc})
-		res.Case("probe|" + name + "|" + o.kind + "|" + strings.Join(o.ids, ","))
+		res.Case("probe|" + class + "|" + got)
+		lines = append(lines, fmt.Sprintf("%s\t%s: client %s asks %s %s %s -> %s", class, what, q.client, q.name, dns.ClassToString[q.class], dns.TypeToString[q.qtype], got))
 	}
-	probe("class CH question for a view name", qspec{client: "lan", name: "a.example.lan.", qtype: dns.TypeA, class: dns.ClassCHAOS, id: 9})
-	probe("type ANY for a view name", qspec{client: "lan", name: "a.example.lan.", qtype: dns.TypeANY, class: dns.ClassINET, id: 10})
-	probe("type CNAME for a view name", qspec{client: "lan", name: "a.example.lan.", qtype: dns.TypeCNAME, class: dns.ClassINET, id: 11})
-	probe("TXT for a name the view lists under A only", qspec{client: "lan", name: "a.example.lan.", qtype: dns.TypeTXT, class: dns.ClassINET, id: 12})
+	probe("class-ignored", "views does not look at the question's class", qspec{client: "lan", name: "a.example.lan.", qtype: dns.TypeA, class: dns.ClassCHAOS, id: 9})
+	probe("exact-per-type", "an exact owner overrides the covering wildcard for its own type only (a.example.lan. exists with A; RFC 4592 would make AAAA a NODATA)",
+		qspec{client: "lan", name: "a.example.lan.", qtype: dns.TypeAAAA, class: dns.ClassINET, id: 10})
+	probe("other-type-to-resolver", "a name the view owns is handed to the resolver for every type the view does not list (no NODATA)",
+		qspec{client: "lan", name: "a.example.lan.", qtype: dns.TypeTXT, class: dns.ClassINET, id: 11})
+	probe("any", "type ANY for a name the view owns", qspec{client: "lan", name: "a.example.lan.", qtype: dns.TypeANY, class: dns.ClassINET, id: 12})
+	probe("later-view-not-consulted", "the client is in both views; the first has no TXT for b.example.lan., the second has: not consulted",
+		qspec{client: "nest", name: "b.example.lan.", qtype: dns.TypeTXT, class: dns.ClassINET, id: 13})
+	if p := os.Getenv("XVIEWS_OBS_OUT"); p != "" {
+		_ = os.WriteFile(p, []byte(strings.Join(lines, "\n")+"\n"), 0o644)
+	}
 }
